@@ -12,8 +12,8 @@
 (*   get(slot)       -> multiset of value-or-default of the matching nodes *)
 (*   set(slot := v)  -> assigned on exactly the matching nodes             *)
 (*   replace(v) / replace_shared(v) -> v at every reference to a matching  *)
-(*        node; every other object is untouched; a matching root is        *)
-(*        rejected                                                         *)
+(*        node (with deepcopy, one copy per matching node); every other    *)
+(*        object is untouched; a matching root is rejected                 *)
 (***************************************************************************)
 EXTENDS FdlEdit
 
@@ -59,14 +59,16 @@ ApplySelOp(h, root, op) ==
   CASE op.name = "iter" -> SRes("ok", h, SetToSeq(sel))
     [] op.name = "get" ->
          LET vals == {ValueAt(h, o, op.slot) : o \in sel} IN
-         SRes("ok", h, [v \in vals |-> Cardinality({o \in sel : ValueAt(h, o, op.slot) = v})])
+         SRes("ok", h, MsSeq([v \in vals |-> Cardinality({o \in sel : ValueAt(h, o, op.slot) = v})]))
     [] op.name = "set" -> SRes("ok", SetAll(h, sel, op.slot, op.val), <<>>)
     [] op.name \in {"replace", "replace_shared"} ->
          IF root \in sel THEN SRes("raise", h, <<>>)
          ELSE IF op.val > 0 THEN SRes("ok", ReplaceWith(h, sel, LAMBDA o, j : op.val), <<>>)
          ELSE IF op.name = "replace_shared"
               THEN SRes("ok", Append(ReplaceWith(h, sel, LAMBDA o, j : -(Len(h) + 1)), FreshConfig), <<>>)
-         ELSE LET rp == RefPositions(h, sel) IN
-              SRes("ok", ReplaceWith(h, sel, LAMBDA o, j : -(Len(h) + RankOf(rp, <<o, j>>)))
-                           \o [i \in 1..Cardinality(rp) |-> FreshConfig], <<>>)
+         ELSE \* deepcopy = True: one copy of v per matching node, shared by all references
+              \* to that node (the sharing structure around the replaced node is kept)
+              LET rank(s) == Cardinality({x \in sel : x <= s}) IN
+              SRes("ok", ReplaceWith(h, sel, LAMBDA o, j : -(Len(h) + rank(-h[o].items[j].val)))
+                           \o [i \in 1..Cardinality(sel) |-> FreshConfig], <<>>)
 =============================================================================
